@@ -101,7 +101,7 @@ def generate(rng, tier, idx):
     if rng.random() < 0.25:
         rows[rng.randrange(len(rows))][0] = 'bad'          # runtime error at that record for int(a1)
     world = {'rows': rows, 'join_rows': workload.gen_join_table(rng, rng.choice([0, 1, 2, 3, 4])),
-             'header': rng.random() < 0.3, 'list_quirks': None, 'wal': rng.random() < 0.3}
+             'header': rng.random() < 0.3, 'list_quirks': None, 'wal': rng.random() < 0.3, 'df_variety': rng.random() < 0.4}
     if rng.random() < 0.3:
         world['list_quirks'] = {'shared': rng.random() < 0.5, 'ragged': rng.random() < 0.5, 'none_cell': rng.random() < 0.5, 'ragged_join': rng.random() < 0.5,
                                 'list_cells': rng.random() < 0.3}
@@ -224,6 +224,12 @@ class World(object):
         import pandas
         self.pandas = pandas
         self.dfA = pandas.DataFrame([list(r) for r in rows], columns=self.header)
+        if spec.get('df_variety'):
+            # a numeric column, a non-default index and (for header worlds) an extra float column
+            self.dfA[3 if self.header is None else 'num'] = list(range(len(rows)))
+            self.dfA.index = [chr(ord('z') - i) for i in range(len(rows))]
+            if self.header is not None:
+                self.dfA['ratio'] = [i / 2.0 for i in range(len(rows))]
         self.dfB = pandas.DataFrame([list(r) for r in jrows], columns=self.jheader) if jrows else pandas.DataFrame([['nokey', 'J0', 'm']], columns=self.jheader)
         self.dfA_snap = self.dfA.copy(deep=True)
         self.dfB_snap = self.dfB.copy(deep=True)
